@@ -6,7 +6,7 @@
    A file is a list of lines, a line a list of Unicode scalar values.  M = (main automaton,
    lookaheads as (token type, (is_positive, automaton)) in the order the hash map lists them);
    cls_text c = the label text of class c (escape_debug of the class's printed AST, or "-"). *)
-From Scnr Require Import Base Automaton Dot DotProofs.
+From Scnr Require Import Base Automaton Dot DotProofs FindFrom Nfa Compile CompileProofs.
 From Coq Require Import String.
 
 (* Reading the written file back yields exactly the graph of the automata:
@@ -82,3 +82,33 @@ Theorem C18_file_name_inj :
   forall folder prefix n1 n2, file_name folder prefix n1 = file_name folder prefix n2 -> n1 = n2.
 Proof. exact file_name_inj. Qed.
 Print Assumptions C18_file_name_inj.
+
+(* THE START STATE. The renderer draws state 0 without an accepting label even if it accepts (the
+   `q <> 0` above). For the picture to show EXACTLY the accepting states, state 0 must not accept:
+   then the accepting labels are exactly the accepting states with their token types. *)
+Theorem C18_accepting_labels_exact :
+  forall title cls_text A las,
+  wf_dot (A, las) = true -> label_safe cls_text (A, las) -> fst (nth 0 (fin A) (false, 0%N)) = false ->
+  exists d, extract (render title cls_text (A, las)) = Some d /\
+    forall q t, In (q, Some t) (g_nodes (d_main d)) <->
+      q < List.length (trans A) /\ nth q (fin A) (false, 0%N) = (true, t).
+Proof.
+  intros title cls_text A las Hwf Hsafe H0.
+  destruct (nodes_edges_exact title cls_text A las Hwf Hsafe) as (d & Hd & _ & Hacc & _).
+  exists d. split; [exact Hd|]. intros q t. rewrite Hacc. split.
+  - intros (_ & Hq & Hf). auto.
+  - intros (Hq & Hf). split; [|auto]. intros ->. rewrite Hf in H0. discriminate.
+Qed.
+Print Assumptions C18_accepting_labels_exact.
+
+(* ... and the automata the pipeline compiles never accept in state 0 (the empty word is never a
+   token); every run additionally checks it on every automaton the implementation dumped *)
+Theorem C18_compiled_start_not_accepting :
+  forall pats A, mode_width_ok pats = true -> compile_mode pats = Compiled A ->
+  fst (nth 0 (fin A) (false, 0%N)) = false.
+Proof.
+  intros pats A Hw HA. pose proof (compile_mode_empty_word (fun _ _ => false) pats A Hw HA) as H.
+  destruct (nth 0 (fin A) (false, 0%N)) as [b t0] eqn:E; destruct b; [|reflexivity]. exfalso.
+  apply (H t0). exists 0. split; [left; reflexivity|]. unfold acc. rewrite E. apply N.eqb_refl.
+Qed.
+Print Assumptions C18_compiled_start_not_accepting.
